@@ -23,6 +23,28 @@ SC = "hed/validator/sidecar_validator.py"
 G = {"vars": {"ctx_depth0": "Int"}, "init": {"ctx_depth": "ctx_depth0"}, "no_frame": True}
 BAL = {"C08.context.stack_balanced": "ctx_depth == ctx_depth0"}
 NOTE = ["loops explored as one arbitrary iteration from a havocked state (sound for the ghost balance); values opaque"]
+F, COL, KEY, HS = "ErrorContext.FILE_NAME", "ErrorContext.SIDECAR_COLUMN_NAME", "ErrorContext.SIDECAR_KEY_NAME", "ErrorContext.HED_STRING"
+
+
+def _kinds(*alts):
+    return " or ".join("ctx_kinds == (" + "".join(k + ", " for k in alt) + ")" for alt in alts)
+
+
+# C08/C12 "each structural fault is flagged ... labelled": the contexts in force when issues are stamped, per stamping site
+LBL = "C08.label.contexts_in_force_where_issues_are_stamped"
+RULES = {
+    "validate": {"add_context_and_filter": {LBL: _kinds((F, COL, HS), (F, COL, KEY, HS))},
+                 "format_error_with_context:INVALID_COLUMN_REF": {LBL: _kinds((F, COL), (F, COL, KEY))}},
+    "_validate_refs": {"format_error_with_context:MALFORMED_COLUMN_REF": {LBL: _kinds((COL, HS), (COL, KEY, HS))},
+                       "format_error_with_context:INVALID_COLUMN_REF": {LBL: _kinds((COL, HS), (COL, KEY, HS))},
+                       "add_context_and_filter": {LBL: _kinds((COL,))},
+                       "format_error_with_context:SELF_COLUMN_REF": {LBL: _kinds(())},
+                       "format_error_with_context:NESTED_COLUMN_REF": {LBL: _kinds(())}},
+    "_validate_categorical_column": {"format_error_with_context:blankValueString": {LBL: _kinds((), (KEY,))},
+                                     "format_error_with_context:wrongHedDataType": {LBL: _kinds((KEY,))},
+                                     "format_error_with_context:SIDECAR_NA_USED": {LBL: _kinds((KEY,))}},
+    "_check_definitions_bad_spot": {"format_error_with_context:BAD_DEFINITION_LOCATION": {LBL: _kinds((COL,))}},
+}
 for _name, _params in (
         ("validate_structure", {"self": "Opaque", "sidecar": "Opaque", "error_handler": "ErrorHandlerCtx"}),
         ("_validate_refs", {"self": "Opaque", "sidecar": "Opaque", "error_handler": "ErrorHandlerCtx"}),
@@ -32,4 +54,4 @@ for _name, _params in (
         ("validate", {"self": "Opaque", "sidecar": "Opaque", "extra_def_dicts": "Opaque", "name": "Opaque",
                       "error_handler": "ErrorHandlerCtx"})):
     contract(f"C08.context.{_name.strip('_')}", file=SC, func=f"SidecarValidator.{_name}", params=_params, returns="Opaque",
-             enc="native", ghost=G, ensures=BAL, unwind="havoc", assume=NOTE, prop="C08")
+             enc="native", ghost=dict(G, label_rules=RULES.get(_name, {})), ensures=BAL, unwind="havoc", assume=NOTE, prop="C08")
